@@ -21,23 +21,6 @@ import (
 
 var vCurEvent *Event
 
-// vPoolAliases: does any of the next few pooled events share its buffer with b?
-func vPoolAliases(b []byte) bool {
-	var got []*Event
-	bad := false
-	for i := 0; i < 6; i++ {
-		x := eventPool.Get().(*Event)
-		got = append(got, x)
-		if zzverif.SameBacking(x.buf, b) {
-			bad = true
-		}
-	}
-	for i := len(got) - 1; i >= 0; i-- {
-		eventPool.Put(got[i])
-	}
-	return bad
-}
-
 // vInEventPool: is e among the next few objects the event pool hands out? (They are put back.)
 func vInEventPool(e *Event) bool {
 	var got []*Event
